@@ -187,7 +187,14 @@ fn cell(entry: usize, sig: i32, ctx: usize, e: &mut Emit) {
         }
     }
     let empty: [i32; 0] = [];
+    #[allow(unused_mut)]
     let mut inst = Instances { a: SignalsInfo::<SignalOnly>::new(&empty).unwrap(), b: SignalsInfo::<WithRawSiginfo>::new(&empty).unwrap(), c: SignalsInfo::<WithOrigin>::new(&empty).unwrap() };
+    if ctx == 3 {
+        // the instances have been closed: additions are still judged like on an open one
+        inst.a.handle().close();
+        inst.b.handle().close();
+        inst.c.handle().close();
+    }
     crate::histex::counters::install();
     let mut before = dispositions();
     let fds_before = open_fds();
@@ -264,7 +271,7 @@ pub fn expected(entry: usize, sig: i32, os_ok: bool) -> &'static str {
     "ok"
 }
 
-const CTX: [&str; 3] = ["fresh", "after-two-registrations", "after an unchecked registration (and removal) of the same number"];
+const CTX: [&str; 4] = ["fresh", "after-two-registrations", "after an unchecked registration (and removal) of the same number", "on an instance that has been closed"];
 
 pub fn run(tier: Tier) -> BResult {
     let sigs = sig_list();
@@ -276,6 +283,11 @@ pub fn run(tier: Tier) -> BResult {
             for (i, &s) in sigs.iter().enumerate() {
                 cells.push((en, s, c, verdict[i]));
             }
+        }
+    }
+    for en in 13..=15 {
+        for (i, &s) in sigs.iter().enumerate() {
+            cells.push((en, s, 3, verdict[i]));
         }
     }
     let cells_ref = cells.clone();
@@ -321,7 +333,7 @@ pub fn run(tier: Tier) -> BResult {
             }
         }
         if let Some(m) = bad {
-            violations.push(BViolation { message: format!("C14: {} with signal {} ({}): {}", ENTRY[en], s, ["fresh process", "after two registrations", "after an unchecked registration and removal of the same number"][c], m), case });
+            violations.push(BViolation { message: format!("C14: {} with signal {} ({}): {}", ENTRY[en], s, ["fresh process", "after two registrations", "after an unchecked registration and removal of the same number", "on an instance that has been closed"][c], m), case });
         }
     }
     BResult {
@@ -334,7 +346,7 @@ pub fn run(tier: Tier) -> BResult {
         violations,
         exhaustive: true,
         caps: vec![],
-        rule: "complete grid entry point (19: the three iterator constructors also with an accepted signal listed before the number under test - its action, slots and pipe must be gone after the refusal) x signal number ([-2,130] + i32::MIN/MAX) x context {fresh, after two other registrations, after an unchecked registration+removal of the same number}; expected class per cell from a rule (forbidden+checked => catchable panic; OS verdict obtained by an independent sibling calling sigaction => Err; iterator front-ends panic for negative / >= 128; register_conditional_default Err for numbers without a name; else Ok); distinct = distinct (entry, outcome class, child fate, expected) tuples".into(),
+        rule: "complete grid entry point (19: the three iterator constructors also with an accepted signal listed before the number under test - its action, slots and pipe must be gone after the refusal) x signal number ([-2,130] + i32::MIN/MAX) x context {fresh, after two other registrations, after an unchecked registration+removal of the same number; Handle::add_signal also on a closed instance}; expected class per cell from a rule (forbidden+checked => catchable panic; OS verdict obtained by an independent sibling calling sigaction => Err; iterator front-ends panic for negative / >= 128; register_conditional_default Err for numbers without a name; else Ok); distinct = distinct (entry, outcome class, child fate, expected) tuples".into(),
         assumptions: vec!["kernel/libc verdict on a signal number is taken from an independent sigaction call in a sibling process".into(), "x86-64 Linux".into()],
     }
 }
